@@ -11,6 +11,34 @@ COMMON_NOTE = ('Trusted: Lean 4.33 kernel with axioms propext/Classical.choice/Q
                'every invocation; harness generators, canonicalisation and monitors; ')
 
 CHECKS = {
+    'C17': dict(
+        text='Theorems: the DPFS level-3 reader returns slices of the view that is, byte by byte, the copy selected by the '
+             'level-2 bit of the byte\'s block (dpRead_view, dpfsView_getElem); the IVFC levels are windows of that view; '
+             'cache soundness of get_block for any rd/geometry (every cached entry equals the cache-free validity for that '
+             'level and block, preserved by every call); hence after ANY history of reads/seeks/get_block calls on an opened '
+             'container a verified read returns the slice of the verified view (stored block where the SHA-256 chain to the '
+             'master hash is intact, 0xDD filler elsewhere); tamper theorem: two contents under the same master hashes cannot '
+             'both have an intact chain for a block on which they differ, or H collides; table-hash rejection for DISA and DIFF.  '
+             'Tied to pyctr by differential execution of the compiled model against DISA/DIFF over an independent builder, with '
+             'a single-byte fault in data / hash levels / bitmaps / copies / table / header hash x read histories, and an '
+             'independent reference reader as monitor.',
+        note=COMMON_NOTE + 'SHA-256 is a parameter H; header fields other than the table hash are unauthenticated in the code '
+             '(CMAC never verified on open) and are not faulted; faults are applied before opening; totality of reads '
+             '(no IndexError) is shown by correspondence on well-formed geometries, the theorems are partial-correctness '
+             'statements; the level-1/level-2 bitmap assembly (mkDp) is definitionally the model and tied by correspondence.',
+        technique='Lean 4 proof (refinement + invariant over histories + tamper evidence) + model/implementation correspondence',
+        design='§4 C17'),
+    'C18': dict(
+        text='Model of IVFCLevel4Reader.write, IVFCHashTree.write_data (hash propagation, cache invalidation), '
+             'DPFSLevel3.write_data, Partition/DISA/DIFF._update_hashes and the five CMAC schemes, run differentially against '
+             'pyctr over write/seek/read/re-open histories; monitors: same-session read-back = writes laid over the previous '
+             'contents, re-open with a fresh reader, every block re-verified by an independent reference reader, header hash, '
+             'CMAC (RFC 4493 transcription), position bookkeeping, read-only error, and the exact set of file positions that '
+             'may change.  Theorems so far cover the write path\'s no-op cases; see the evidence file for the list.',
+        note=COMMON_NOTE + 'SHA-256/AES-CMAC executable in the driver, parameters in theorems; partial updates after an '
+             'IndexError inside a write are not modelled (history ends there).',
+        technique='Lean 4 model + proof (partial) + model/implementation correspondence',
+        design='§4 C18'),
     'C14': dict(
         text='Theorems: counter = xor of the halves of SHA-256 of the lower-cased, forward-slashed, NUL-terminated '
              'UTF-16LE path (outside the recorded /backup alias guard); case- and separator-insensitivity for every '
